@@ -2403,8 +2403,107 @@ def demoOpq : V2.Opq :=
     nkeys_IsValidPublicUserKey := fun _ => false, nkeys_IsValidPublicCurveKey := fun _ => false,
     nkeys_IsValidPublicServerKey := fun _ => false, time_Parse := fun _ _ => false, net_ParseCIDR := fun _ => false,
     time_LoadLocation := fun _ => false, nkeys_IsValidPublicOperatorKey := fun _ => false,
-    Claims_verify := fun _ text _ => text == "a.b".toList }
+    Claims_verify := fun _ text _ => text == "a.b".toList,
+    ClaimsData_encode := fun _ _ _ => none, sort_SortExports := fun x => x, sort_SortImports := fun x => x }
 
 example : V2.Decode "a.b.c".toList demoOpq = some (some (.AccountClaims default), false) := by decide
+
+/-! ## C02 / C12: the per-kind part of `Encode` (subject-role test, sorting, kind stamp), as translated
+
+`ClaimsData.encode` (→ `doEncode`) is a parameter; `sort.Sort` on `Exports` / `Imports` is a parameter assumed to be the
+model's stable sort by subject. -/
+
+/-- `UserClaims.Encode`: refuses (empty token, error, `encode` never consulted) unless the subject is a user key;
+otherwise stamps the kind and hands the claims to `encode` -/
+theorem v2_userEncode (opq : V2.Opq) (u : V2.T_UserClaims) (kp : Nat) :
+    V2.UserClaims_Encode u kp opq =
+      if opq.nkeys_IsValidPublicUserKey u.f_ClaimsData.f_Subject then
+        let u' : V2.T_UserClaims := { u with f_User := { u.f_User with f_GenericFields := { u.f_User.f_GenericFields with f_Type := "user".toList } } }
+        (opq.ClaimsData_encode u'.f_ClaimsData kp (some (.UserClaims u'))).map fun r => (u', r.1, r.2)
+      else some (u, [], true) := by
+  unfold V2.UserClaims_Encode
+  cases h : opq.nkeys_IsValidPublicUserKey u.f_ClaimsData.f_Subject <;> simp [h]
+  cases opq.ClaimsData_encode u.f_ClaimsData kp _ <;> rfl
+
+/-- `ActivationClaims.Encode` -/
+theorem v2_activationEncode (opq : V2.Opq) (a : V2.T_ActivationClaims) (kp : Nat) :
+    V2.ActivationClaims_Encode a kp opq =
+      if opq.nkeys_IsValidPublicAccountKey a.f_ClaimsData.f_Subject then
+        let a' : V2.T_ActivationClaims := { a with f_Activation := { a.f_Activation with f_GenericFields := { a.f_Activation.f_GenericFields with f_Type := "activation".toList } } }
+        (opq.ClaimsData_encode a'.f_ClaimsData kp (some (.ActivationClaims a'))).map fun r => (a', r.1, r.2)
+      else some (a, [], true) := by
+  unfold V2.ActivationClaims_Encode
+  cases h : opq.nkeys_IsValidPublicAccountKey a.f_ClaimsData.f_Subject <;> simp [h]
+  cases opq.ClaimsData_encode a.f_ClaimsData kp _ <;> rfl
+
+/-- `AccountClaims.Encode`: subject test, then both sorts, then the kind stamp, then `encode` -/
+theorem v2_accountEncode (opq : V2.Opq) (a : V2.T_AccountClaims) (kp : Nat) :
+    V2.AccountClaims_Encode a kp opq =
+      if opq.nkeys_IsValidPublicAccountKey a.f_ClaimsData.f_Subject then
+        let a' : V2.T_AccountClaims := { a with f_Account := { a.f_Account with
+          f_Exports := opq.sort_SortExports a.f_Account.f_Exports,
+          f_Imports := opq.sort_SortImports a.f_Account.f_Imports,
+          f_GenericFields := { a.f_Account.f_GenericFields with f_Type := "account".toList } } }
+        (opq.ClaimsData_encode a'.f_ClaimsData kp (some (.AccountClaims a'))).map fun r => (a', r.1, r.2)
+      else some (a, [], true) := by
+  unfold V2.AccountClaims_Encode
+  cases h : opq.nkeys_IsValidPublicAccountKey a.f_ClaimsData.f_Subject <;> simp [h]
+  cases opq.ClaimsData_encode a.f_ClaimsData kp _ <;> rfl
+
+/-- `OperatorClaims.Encode`: subject test, account-server URL test (`b` is what the translated
+`validateAccountServerURL` returns: `v2_validateAccountServerURL`), kind stamp, `encode` -/
+theorem v2_operatorEncode (opq : V2.Opq) (oc : V2.T_OperatorClaims) (kp : Nat) (b : Bool)
+    (hb : V2.Operator_validateAccountServerURL oc.f_Operator opq = some b) :
+    V2.OperatorClaims_Encode oc kp opq =
+      if !opq.nkeys_IsValidPublicOperatorKey oc.f_ClaimsData.f_Subject then some (oc, [], true)
+      else if b then some (oc, [], true)
+      else
+        let oc' : V2.T_OperatorClaims := { oc with f_Operator := { oc.f_Operator with f_GenericFields := { oc.f_Operator.f_GenericFields with f_Type := "operator".toList } } }
+        (opq.ClaimsData_encode oc'.f_ClaimsData kp (some (.OperatorClaims oc'))).map fun r => (oc', r.1, r.2) := by
+  unfold V2.OperatorClaims_Encode
+  simp only [hb]
+  cases h : opq.nkeys_IsValidPublicOperatorKey oc.f_ClaimsData.f_Subject <;> cases b <;> simp [h]
+  cases opq.ClaimsData_encode oc.f_ClaimsData kp _ <;> rfl
+
+/-- the claims kinds without a subject rule hand the claims to `encode` as they are (generic) or after the stamp -/
+theorem v2_genericEncode (opq : V2.Opq) (g : V2.T_GenericClaims) (kp : Nat) :
+    V2.GenericClaims_Encode g kp opq = opq.ClaimsData_encode g.f_ClaimsData kp (some (.GenericClaims g)) := by
+  unfold V2.GenericClaims_Encode
+  cases opq.ClaimsData_encode g.f_ClaimsData kp _ <;> rfl
+
+theorem v2_authRequestEncode (opq : V2.Opq) (a : V2.T_AuthorizationRequestClaims) (kp : Nat) :
+    V2.AuthorizationRequestClaims_Encode a kp opq =
+      let a' : V2.T_AuthorizationRequestClaims := { a with f_AuthorizationRequest := { a.f_AuthorizationRequest with
+        f_GenericFields := { a.f_AuthorizationRequest.f_GenericFields with f_Type := "authorization_request".toList } } }
+      (opq.ClaimsData_encode a'.f_ClaimsData kp (some (.AuthorizationRequestClaims a'))).map fun r => (a', r.1, r.2) := by
+  unfold V2.AuthorizationRequestClaims_Encode
+  simp
+  cases opq.ClaimsData_encode a.f_ClaimsData kp _ <;> rfl
+
+theorem v2_authResponseEncode (opq : V2.Opq) (a : V2.T_AuthorizationResponseClaims) (kp : Nat) :
+    V2.AuthorizationResponseClaims_Encode a kp opq =
+      let a' : V2.T_AuthorizationResponseClaims := { a with f_AuthorizationResponse := { a.f_AuthorizationResponse with
+        f_GenericFields := { a.f_AuthorizationResponse.f_GenericFields with f_Type := "authorization_response".toList } } }
+      (opq.ClaimsData_encode a'.f_ClaimsData kp (some (.AuthorizationResponseClaims a'))).map fun r => (a', r.1, r.2) := by
+  unfold V2.AuthorizationResponseClaims_Encode
+  simp
+  cases opq.ClaimsData_encode a.f_ClaimsData kp _ <;> rfl
+
+/-- **C02, encode side, on the translated code.** Whatever `encode` does, each `XClaims.Encode` returns an error and
+an empty token — without consulting `encode` — when the subject is not a key of the role its kind demands. -/
+theorem gen_encode_refuses_unfit_subject (opq : V2.Opq) (kp : Nat) :
+    (∀ u : V2.T_UserClaims, opq.nkeys_IsValidPublicUserKey u.f_ClaimsData.f_Subject = false →
+        V2.UserClaims_Encode u kp opq = some (u, [], true)) ∧
+    (∀ a : V2.T_AccountClaims, opq.nkeys_IsValidPublicAccountKey a.f_ClaimsData.f_Subject = false →
+        V2.AccountClaims_Encode a kp opq = some (a, [], true)) ∧
+    (∀ a : V2.T_ActivationClaims, opq.nkeys_IsValidPublicAccountKey a.f_ClaimsData.f_Subject = false →
+        V2.ActivationClaims_Encode a kp opq = some (a, [], true)) ∧
+    (∀ o : V2.T_OperatorClaims, opq.nkeys_IsValidPublicOperatorKey o.f_ClaimsData.f_Subject = false →
+        V2.OperatorClaims_Encode o kp opq = some (o, [], true)) := by
+  refine ⟨?_, ?_, ?_, ?_⟩
+  · intro u h; rw [v2_userEncode]; simp [h]
+  · intro a h; rw [v2_accountEncode]; simp [h]
+  · intro a h; rw [v2_activationEncode]; simp [h]
+  · intro o h; unfold V2.OperatorClaims_Encode; simp [h]
 
 end Jwt.FnTie
